@@ -39,6 +39,9 @@ def prefixes(data: bytes, addpath: bool = False, labels: bool = False, rd: bool 
             rdv = bytes(body[:8])
             body = body[8:]
             bits -= 64
+        if bits % 8 and body:
+            # RFC 4271 4.3: "the value of trailing bits is irrelevant": the prefix is its first `bits` bits
+            body = bytes(body[:-1]) + bytes([body[-1] & (0xFF00 >> (bits % 8)) & 0xFF])
         out.append((pid, tuple(lab), rdv, bits, bytes(body)))
     return out
 
